@@ -6,6 +6,10 @@ unsigned int scan_ulong(char *s, unsigned long *u)
   unsigned long c;
   pos = 0; result = 0;
   while ((c = (unsigned long) (unsigned char) (s[pos] - '0')) < 10)
-    { result = result * 10 + c; ++pos; }
+    {
+      /* stop in front of a digit that does not fit instead of wrapping */
+      if (result > ((unsigned long) -1 - c) / 10) break;
+      result = result * 10 + c; ++pos;
+    }
   *u = result; return pos;
 }
